@@ -100,6 +100,44 @@ def random_history(rnd, nops, span, base, kinds):
     return " ".join(toks)
 
 
+def lattice_history(rnd, kinds):
+    """Rectangles aligned to a coarse lattice (so that equal column ranges stacked vertically and equal
+    row ranges side by side are the norm), added in random order, then thin holes that cross several
+    members -- aims at the index bookkeeping of tickit_rectset_subtract (members sliding below the loop
+    index while remainders are re-added) and at multi-stretch restarts of tickit_rectset_add."""
+    oy, ox = rnd.choice([(0, 0), (-3, -4), (50000, -50000)])
+    ys = [0, 1, 2, 3, 4, 5]
+    xs = rnd.choice([[0, 1, 2, 3, 4], [0, 2, 3, 5, 6], [0, 1, 3, 4, 6]])
+    toks = []
+    nadd = rnd.randint(3, 9)
+    blocks = []
+    for _ in range(nadd):
+        a = rnd.randrange(len(ys) - 1); b = a + 1 if rnd.random() < 0.7 else rnd.randint(a + 1, len(ys) - 1)
+        c = rnd.randrange(len(xs) - 1); d = c + 1 if rnd.random() < 0.7 else rnd.randint(c + 1, len(xs) - 1)
+        blocks.append((oy + ys[a], ox + xs[c], ys[b] - ys[a], xs[d] - xs[c]))
+    order = rnd.random()
+    if order < 0.3:
+        blocks.sort(key=lambda r: (-r[0], r[1]))      # bottom-up
+    elif order < 0.5:
+        blocks.sort(key=lambda r: (r[1], -r[0]))
+    for r in blocks:
+        toks.append(fmt("A", r)); kinds["A"] += 1
+    for _ in range(rnd.randint(1, 3)):
+        if rnd.random() < 0.5:      # thin horizontal hole
+            t = oy + rnd.randint(0, 4); l = ox + rnd.randint(-1, 2)
+            hole = (t, l, 1, rnd.randint(2, 8))
+        else:                       # thin vertical hole
+            t = oy + rnd.randint(-1, 2); l = ox + rnd.randint(0, 5)
+            hole = (t, l, rnd.randint(2, 6), 1)
+        toks.append(fmt("S", hole)); kinds["S"] += 1
+        if rnd.random() < 0.3:
+            r = rnd.choice(blocks)
+            toks.append(fmt("A", r)); kinds["A"] += 1
+    lo = min(oy, ox) - 1
+    toks.append("G %d %d" % (lo, lo + 5)); kinds["G"] += 1
+    return " ".join(toks)
+
+
 # ------------------------------------------------------------------------------------------
 
 def gen(tier, seed, info):
@@ -162,19 +200,24 @@ def gen(tier, seed, info):
     info["exhaustive_states_checked"] = states
 
     rnd = random.Random(seed * 7919 + 5)
-    nshort, nlong = (6000, 600) if tier == "quick" else (300000, 20000)
+    nshort, nlong, nlat = (6000, 600, 6000) if tier == "quick" else (300000, 20000, 300000)
     kinds = {k: 0 for k in "ASTCQG"}
+    for _ in range(nlat):
+        yield lattice_history(rnd, kinds)
     bases = [(0, 0), (-4, -6), (100000, -100000), (-7, 3)]
     for _ in range(nshort):
         yield random_history(rnd, rnd.randint(3, 9), rnd.choice([3, 4, 5]), rnd.choice(bases), kinds)
     for _ in range(nlong):
         yield random_history(rnd, rnd.randint(10, 40), rnd.choice([4, 6, 8]), rnd.choice(bases), kinds)
-    info["random_cases"] = nshort + nlong
+    info["random_cases"] = nshort + nlong + nlat
+    info["random_lattice_cases"] = nlat
     info["random_command_kinds"] = kinds
     info["random_distribution"] = ("histories of 3-9 and 10-40 operations; 60% of rectangles placed relative to an earlier one "
                                    "(touching in the same band/column, corner-adjacent, shifted, overlapping, nested, enclosing), "
                                    "the rest uniform in a small window; windows at 4 origins incl. negative and +-10^5; 68% add, 32% "
-                                   "subtract, 4% translate, 2% clear; queries after 40% of operations")
+                                   "subtract, 4% translate, 2% clear; queries after 40% of operations; plus lattice histories: 3-9 adds of "
+                                   "lattice-aligned blocks (stacked equal column ranges, adjacent equal row ranges) in random / bottom-up "
+                                   "order followed by 1-3 thin row or column holes and a grid of queries")
 
 
 def commands(case):
